@@ -8,6 +8,8 @@ from ..core import FUNC, call_attr, calls_in, const, dotted, is_const, kwarg, no
 from .c09 import waiter_rule, _stored_in_cancelled_table
 
 EXPLANATION = [
+    'C16.disconnect-guard-identity: the "already gone" guard of Device.disconnect tests the link object against what is registered under its handle, not the handle alone.',
+    'C16.semaphore-identity: the closed-bearer test of Server._indicate_single_bearer re-reads indication_semaphores.get(bearer) without a default.',
     'C16.cis-follow-acl: Controller.on_le_disconnected concludes (on_le_cis_disconnected) every central / peripheral CIS whose acl_connection is the ACL being removed; every LE ACL removal goes through it.',
     'C16.sink-chain: every set_packet_sink override in a BaseSource subclass chains to super().set_packet_sink (or assigns self.sink).',
     'C16.cancel-dispatch: in utils.cancel_on_event, set_exception on the ensured future is reached only under `not isinstance(future, asyncio.Task)`.',
@@ -821,7 +823,46 @@ def cis_follow_acl(ctx):
     R.check(not outside, rule, 'bumble.controller | le_connections removals', 'only on_le_disconnected deletes an LE connection', f'{[p.qual_of(d) for d in outside]} delete LE connections without concluding their CISes', p.loc(outside[0]) if outside else '')
 
 
+def semaphore_identity(ctx):
+    """_indicate_single_bearer detects a bearer closed while it waited for its turn by looking the bearer\'s semaphore up
+    again: `indication_semaphores.get(bearer)` without a default - on_disconnection pops the entry, so None is not the
+    semaphore held.  A default equal to the held semaphore makes the test vacuous."""
+    R, p = ctx.r, ctx.p
+    rule = 'C16.semaphore-identity'
+    fn = p.find('bumble.gatt_server.Server._indicate_single_bearer')
+    if fn is None:
+        R.bad(rule, 'bumble.gatt_server.Server._indicate_single_bearer', 'anchor missing')
+        return
+    tests = [c for c in ast.walk(fn) if isinstance(c, ast.Compare) and isinstance(c.ops[0], (ast.Is, ast.IsNot)) and 'indication_semaphores' in norm(c.left)]
+    R.check(len(tests) >= 1, rule, 'bumble.gatt_server.Server._indicate_single_bearer | closed-bearer test', f'{len(tests)} test(s)', 'the closed-bearer test is gone', p.loc(fn))
+    for t in tests:
+        call = t.left if isinstance(t.left, ast.Call) else None
+        ok = call is not None and call_attr(call) == 'get' and len(call.args) == 1 and not call.keywords
+        R.check(ok, rule, 'bumble.gatt_server.Server._indicate_single_bearer | lookup without default', 'get(bearer)', f'`{norm(t)[:70]}`: after on_disconnection() has removed the entry the lookup yields the default, i.e. the very semaphore that is held - the test never fires, the indication re-creates the closed bearer\'s pending state and waits 30 s for a confirmation that cannot come', p.loc(t))
+
+
+def disconnect_guard_identity(ctx):
+    """Device.disconnect refuses a link object that is no longer the one registered under its handle (handles are reused:
+    a stale Connection object must not disconnect the new link that got the same handle and then wait for an event that the
+    old object never emits): the guard compares objects, not just handles."""
+    R, p = ctx.r, ctx.p
+    rule = 'C16.disconnect-guard-identity'
+    fn = p.find(f'{DEV}.disconnect')
+    if fn is None:
+        R.bad(rule, f'{DEV}.disconnect', 'anchor missing')
+        return
+    guards = [i_ for i_ in walk_local(fn) if isinstance(i_, ast.If) and any(isinstance(x, ast.Raise) for x in i_.body) and 'connection' in norm(i_.test)]
+    R.check(len(guards) >= 1, rule, f'{DEV}.disconnect | stale-link guard', f'{len(guards)} guard(s)', 'no guard raising for a link that is gone', p.loc(fn))
+    for g in guards[:1]:
+        t = g.test
+        by_object = any(isinstance(c, ast.Compare) and isinstance(c.ops[0], (ast.In, ast.NotIn, ast.Is, ast.IsNot)) and norm(c.left) == 'connection' for c in ast.walk(t))
+        by_handle_only = any(isinstance(c, ast.Compare) and isinstance(c.ops[0], (ast.In, ast.NotIn)) and norm(c.left) == 'connection.handle' for c in ast.walk(t))
+        R.check(by_object and not by_handle_only, rule, f'{DEV}.disconnect | guard compares the object', 'the link object itself is looked up', f'the guard `{norm(t)[:80]}` only tests that the handle is in use: a stale link object whose handle has been given to a new connection passes, HCI_Disconnect tears down the new link and the caller waits for ever on the old object', p.loc(g))
+
+
 RULES = [
+    ('C16.disconnect-guard-identity', disconnect_guard_identity),
+    ('C16.semaphore-identity', semaphore_identity),
     ('C16.cis-follow-acl', cis_follow_acl),
     ('C16.sink-chain', sink_chain),
     ('C16.cancel-dispatch', cancel_dispatch),
